@@ -107,8 +107,8 @@ MUTANTS = [
                     ev.type_ = resolved;
                 }""")]),
   ("c12-progress-check-only-for-single-item", ["C12", "C10"], [("src/semantic/semantic_state.rs",
-     "            if to_resolve == self.type_registry.unresolved() {",
-     "            if to_resolve.len() < 2 && to_resolve == self.type_registry.unresolved() {")]),
+     "            if to_resolve == self.type_registry.unresolved()\n                && registered",
+     "            if to_resolve.len() < 2\n                && to_resolve == self.type_registry.unresolved()\n                && registered")]),
   ("c14-root-module-skip-removed", ["C14"], [("src/backends/rust.rs",
      "    if key.is_empty() {\n        return Ok(());\n    }\n", "")]),
   ("c14-prologue-epilogue-swapped", ["C14"], [("src/backends/rust.rs",
@@ -131,12 +131,12 @@ MUTANTS = [
   ("c14-nested-directories-flattened", ["C14"], [("src/backends/rust.rs",
      "    for segment in key.iter() {\n        path.push(segment.as_str());\n    }",
      "    for segment in key.iter().skip(key.len().saturating_sub(2)) {\n        path.push(segment.as_str());\n    }")]),
-  ("c14-vftable-item-registered-in-root", ["C14"], [("src/semantic/type_definition/vftable.rs",
+  ("c14-vftable-item-registered-in-grandparent-when-nested", ["C14"], [("src/semantic/type_definition/vftable.rs",
      "    let resolvee_vtable_path = resolvee_path\n        .parent()?\n        .join(",
-     "    let resolvee_vtable_path = resolvee_path\n        .parent()?\n        .parent()\n        .unwrap_or_else(ItemPath::empty)\n        .join(")]),
-  ("c14-existing-output-file-not-rewritten", ["C14"], [("src/backends/rust.rs",
+     "    let resolvee_vtable_path = resolvee_path\n        .parent()\n        .and_then(|p| if p.len() >= 3 { p.parent() } else { Some(p) })?\n        .join(")]),
+  ("c14-generated-file-not-rewritten", ["C14"], [("src/backends/rust.rs",
      '    std::fs::write(&path, output).context("failed to write file")?;',
-     '    if std::fs::metadata(&path).map(|m| m.len() as usize != output.len()).unwrap_or(true) {\n        std::fs::write(&path, output).context("failed to write file")?;\n    }')]),
+     '    // Leave files alone that a previous run has generated already\n    let already_generated = std::fs::read_to_string(&path)\n        .map(|old| old.starts_with("#![allow(dead_code") && old.lines().count() == output.lines().count())\n        .unwrap_or(false);\n    if !already_generated {\n        std::fs::write(&path, output).context("failed to write file")?;\n    }')]),
   ("c19-lookup-by-short-name-over-all-modules", ["C19"], [("src/semantic/type_registry.rs",
      """                    .map(|ip| ip.join(name.into()))
                     .find(|ip| self.is_known(ip))
@@ -153,9 +153,9 @@ MUTANTS = [
                             .unwrap_or(found)
                     })
             })""")]),
-  ("c19-global-counter-in-padding-field-names", ["C19", "C09"], [("src/semantic/type_definition/mod.rs",
-     '                name: Some(format!("_field_{size:x}")),',
-     '                name: Some({\n                    static NEXT: std::sync::atomic::AtomicUsize = std::sync::atomic::AtomicUsize::new(0);\n                    let n = NEXT.fetch_add(1, std::sync::atomic::Ordering::Relaxed);\n                    format!("_field_{size:x}_{n}")\n                }),')]),
+  ("c19-header-depends-on-project-size", ["C19"], [("src/backends/rust.rs",
+     '    writeln!(raw_output, "#![cfg_attr(any(), rustfmt::skip)]")?;',
+     '    writeln!(raw_output, "#![cfg_attr(any(), rustfmt::skip)]")?;\n    if semantic_state.modules().len() > 5 {\n        writeln!(raw_output, "#![allow(clippy::module_inception)]")?;\n    }')]),
 ]
 
 def main():
@@ -187,6 +187,8 @@ def main():
             "defer a derived type": ["C09"], "function signatures": ["C09", "C10"],
             "defined more than once": ["C09", "C14"], "append .rs": ["C09", "C14"],
             "literal path when globbing": ["C14"], "two extern values": ["C14"],
+            "every impl block": ["C10"], "independently of resolution order": ["C09"],
+            "has made progress": ["C09"],
         }
         for line in log:
             h, subject = line.split(" ", 1)
